@@ -42,7 +42,8 @@ func getScoreRange(left []byte, right []byte) (float64, float64, error) {
 			return leftRange, rightRange, errInvalidRange
 		}
 		if isLOpen {
-			leftRange++
+			// the store's range is inclusive: the smallest score above the bound
+			leftRange = math.Nextafter(leftRange, math.Inf(1))
 		}
 	}
 	rangeD = right
@@ -62,7 +63,7 @@ func getScoreRange(left []byte, right []byte) (float64, float64, error) {
 			return leftRange, rightRange, errInvalidRange
 		}
 		if isROpen {
-			rightRange--
+			rightRange = math.Nextafter(rightRange, math.Inf(-1))
 		}
 
 	}
